@@ -84,6 +84,11 @@ def uncodes (l : List Nat) : String := String.ofList (l.map Char.ofNat)
 def fileName (folder conv : List Nat) (t : Nat) : List Nat :=
   folder ++ [47] ++ conv ++ [95] ++ fmt06 t ++ [46, 104, 53]        -- '/', '_', ".h5"
 
+/-- the name convention of the distribution function's checkpoints, `"grid"` -/
+def gridConv : List Nat := [103, 114, 105, 100]
+/-- `"phi"` -/
+def phiConv : List Nat := [112, 104, 105]
+
 /-- Python's `max` of a non-empty list of strings: lexicographic by code point; the first maximal element is kept -/
 def latest : List (List Nat) → Option (List Nat)
   | [] => none
